@@ -114,6 +114,17 @@ CHECKS['C08'] = {
              'tie-breaks in layout stages are listed in the evidence, not proved absent; Pool.starmap scheduling outside the technique.'),
 }
 
+CHECKS['C17'] = {
+    'level': 'other',
+    'technique': 'per-call and structural verification conditions on the real parse_folder.py (bounded-symbolic set intersection proof, resume-safety condition, slice-mode division obligation) + bounded crash-point enumeration of the real main() with a stub parser',
+    'text': ('DECIDED on the source: load_already_processed_files = intersection over the given directories (z3, 4 optional directories); resume-safety '
+             'condition (every output kind written after a consulted kind is consulted) so that "skipped" implies "every requested output present" for every '
+             'kill point between writes; every guarded block writes its path; no division by zero at exit. BOUNDED: real main() + real writers killed before every '
+             'write (1-2 crashes quick, up to 3 thorough) for representative / all output subsets and ids with dots: final tree equals the uninterrupted tree, '
+             'complete pages not reprocessed, idle run exits cleanly; file-name -> id mapping exhaustive over names of length <= 5.'),
+    'note': 'Trusted: atomic file writes (kills between writes only); stub PageParser; the induction from the three per-call obligations to arbitrary crash/resume sequences is a pen-and-paper argument in DESIGN.md.',
+}
+
 NOT_APPLICABLE = {
     'C20': ('equality up to round-off of float tensors produced by torch C++ kernels through module-resident caches across calls: no contract '
             'within reach can state it over reals, no finite domain makes a bounded check exhaustive; a random differential test would be a different technique (DESIGN.md §6)'),
